@@ -66,6 +66,10 @@ def check_type(value: Any, attr_type: Type) -> bool:
         ):
             if not isinstance(value, attr_type.__origin__):
                 return False
+            if hasattr(attr_type.__origin__, "__spec_class_check_type__"):
+                # Containers that know how to check their own contents (e.g.
+                # the item and key types of `KeyedList` / `KeyedSet`).
+                return attr_type.__origin__.__spec_class_check_type__(value, attr_type)
             if attr_type.__origin__ in (list, set):
                 for item in value:
                     if not check_type(item, attr_type.__args__[0]):
